@@ -21,7 +21,7 @@ QUICK = {"examples": 1600, "shards": 16, "budget_s": 300}
 THOROUGH = {"examples": 24000, "shards": 16, "budget_s": 2400}
 ASSUMPTIONS = [
     "bin weights lie in (0,1]; a full-weight bin (weight exactly 1, as fix's clipping produces) with a non-zero residual has p = 0 by the stated formula; with residual exactly 0 it is 0/0 and the bin is not asserted, but it still counts as a hypothesis for the BH adjustment",
-    "segments do not overlap one another; boundaries lie at bin edges or inside a bin (the straddling bin then belongs to both neighbours for segmetrics and to neither for bintest); extra bin-less segments sit in gaps or on other chromosomes",
+    "each chromosome's segments are contiguous and in genomic order; the chromosomes may come in another order than in the bin table; segments do not overlap one another; boundaries lie at bin edges or inside a bin (the straddling bin then belongs to both neighbours for segmetrics and to neither for bintest); extra bin-less segments sit in gaps or on other chromosomes",
     "bintest tests exactly the bins wholly inside a segment; with target_only the off-target bins are removed before the BH adjustment (number of hypotheses = bins tested)",
     "an adjusted p within 1e-12 of alpha accepts either decision; floating tolerance 1e-9 on statistics",
     "the bootstrap CI is required to lie within the bins' range only when smoothed=False (the smoothed bootstrap adds noise by design)",
@@ -198,6 +198,11 @@ def check_case(case):
 
     out = []
     bins, segs = build(case)
+    # the segment table may list its chromosomes in another order than the bin table (e.g. sorted by name: chr1, chr10,
+    # chr2); each chromosome's segments stay contiguous and in genomic order, as every cnvkit reader leaves them
+    if case["seed"] % 3 == 0:
+        order = list(dict.fromkeys(s_["chromosome"] for s_ in segs))[::-1]
+        segs = [s_ for c_ in order for s_ in segs if s_["chromosome"] == c_]
 
     def bad(clause, detail):
         out.append({"clause": clause, "detail": f"{detail}; segments={[(s['chromosome'], s['start'], s['end'], round(s['log2'], 4), s['probes']) for s in segs[:8]]} "
